@@ -41,7 +41,12 @@ def g_res(res, toks):
 
 
 def layer_slices(o):
-    return [hexes(o.get_layer_parameter_values(j)) for j in range(len(o.layers))]
+    """the values of every layer through get_layer_parameter_values; an exception becomes a marker (never equal to
+    the expected slices), so that it is reported as a violation and does not crash the check"""
+    try:
+        return [hexes(o.get_layer_parameter_values(j)) for j in range(len(o.layers))]
+    except Exception as e:
+        return [f"get_layer_parameter_values raised {type(e).__name__}: {str(e)[:80]}"]
 
 
 def expected_slices(plain):
@@ -91,8 +96,11 @@ def do_single_case(ctx, case):
         ctx.tally("has-parameterless-layer")
     if n == 1:
         ctx.tally("one-qubit")
-    if layer_slices(o) != expected_slices(ind):
-        ctx.violation("oracle", "layer-slices", "get_layer_parameter_values does not return the contiguous slices of the layers", case)
+    got_slices = layer_slices(o)
+    if got_slices != expected_slices(ind):
+        raised = len(got_slices) == 1 and isinstance(got_slices[0], str)
+        ctx.violation("oracle", "layer-slices-raise" if raised else "layer-slices",
+                      (f"{got_slices[0]} on a valid individual with layer parameter counts {counts}" if raised else "get_layer_parameter_values does not return the contiguous slices of the layers"), case)
 
     if kind == "remove":
         k = case["k"]
@@ -107,6 +115,19 @@ def do_single_case(ctx, case):
                 want = {"n": n, "layers": ind["layers"][: L - k], "values": ind["values"][: sum(counts[: L - k])]}
                 if evqe.plain_individual(r)["layers"] != want["layers"] or hexes(r.parameter_values) != hexes(want["values"]) or not r.is_valid() or layer_slices(r) != expected_slices(ind)[: L - k]:
                     ctx.violation("oracle", "remove-wrong-result", f"remove_layers(k={k}) does not keep exactly the first {L - k} layers and their parameter values", case)
+            if res[0] == "ok" and n <= 3 and L > 8:
+                # the denoted state of the remaining layers: the shortened individual's circuit is the product of its
+                # layers' own gates (each bound with the layer's own values)
+                ctx.tally("remove:deep-unitary-checked")
+                try:
+                    from qiskit.quantum_info import Operator
+
+                    r = res[1]
+                    ref = r.get_partially_parameterized_quantum_circuit(set())
+                    if not Operator(r.get_quantum_circuit()).equiv(Operator(ref)):
+                        ctx.violation("oracle", "remove-changes-state", f"remove_layers(k={k}) of {L} layers: the circuit of the result is not the product of the remaining layers with their own values", case)
+                except Exception as e:
+                    ctx.violation("oracle", f"remove-circuit-{type(e).__name__}", f"building the circuit after remove_layers raised {type(e).__name__}: {str(e)[:200]}", case)
         elif res[0] != "exc" or res[1] != EXC:
             ctx.violation("oracle", "remove-out-of-range", f"remove_layers(k={k}) with {L} layers must raise {EXC}, got {res[:2]}", case)
         return f"CRemove {gi} {g_z(k)} {g_res(res, toks)}"
@@ -147,7 +168,11 @@ def do_single_case(ctx, case):
             toks.tok(v)
         g = f"CChangeLayer {gi} {g_z(lid)} {evqe.g_values(vs, toks)} {g_res(res, toks)}"
         # second case on the same input: the getter
-        return [g, f"CGetLayer {gi} {g_z(lid)} {evqe.g_values(o.get_layer_parameter_values(lid), toks)}"]
+        got = call(lambda: o.get_layer_parameter_values(lid))
+        if got[0] != "ok":
+            ctx.violation("oracle", f"get-layer-raises-{got[1]}", f"get_layer_parameter_values(layer_id={lid}) raised {got[1]}: {got[2]} (layer parameter counts {counts})", case)
+            return g
+        return [g, f"CGetLayer {gi} {g_z(lid)} {evqe.g_values(got[1], toks)}"]
 
     # append
     nl, rnd, seed = case["n_layers"], case["randomize"], case["seed"]
@@ -181,8 +206,15 @@ def do_single_case(ctx, case):
             try:
                 from qiskit.quantum_info import Operator
 
-                if not Operator(o.get_quantum_circuit()).equiv(Operator(r.get_quantum_circuit())):
-                    ctx.violation("oracle", "append-changes-unitary", f"zero-initialised append of {nl} layers changes the unitary of the individual", case)
+                u_before, u_after = Operator(o.get_quantum_circuit()), Operator(r.get_quantum_circuit())
+                if not u_before.equiv(u_after):
+                    ctx.violation("oracle", "append-changes-unitary", f"zero-initialised append of {nl} layers to an individual with {L} layers changes the unitary of the individual", case)
+                if back[0] == "ok" and not Operator(back[1].get_quantum_circuit()).equiv(u_after):
+                    ctx.violation("oracle", "undo-changes-unitary", f"remove_layers after a zero-initialised append of {nl} layers ({L} layers before) does not denote the unitary of the appended individual", case)
+                if L + nl > 10:
+                    ctx.tally("append:depth-crosses-10" if L <= 10 else "append:depth>10")
+                if L + nl > 100:
+                    ctx.tally("append:depth-crosses-100" if L <= 100 else "append:depth>100")
             except Exception as e:
                 ctx.violation("oracle", f"append-circuit-{type(e).__name__}", f"building the circuits before/after the append raised {type(e).__name__}: {str(e)[:200]}", case)
     stream = rnglog.g_stream(log.decisions(), tok=toks.tok, value_of_random=lambda x: 2 * math.pi * x)
@@ -235,6 +267,21 @@ def gen_case(rng):
     return {"kind": kind, "ind": ind, "n_layers": rng.choice([1, 1, 2, 2, 3, 4, 0, -1]), "randomize": rng.random() < 0.35, "seed": rng.randrange(2**31)}
 
 
+def gen_deep_case(rng, L=None, n=None):
+    """1-3 qubits, 8-12 layers (or ~100 on 1 qubit) with non-zero values: the append / removal crosses a depth of
+    10 (100) layers, where parameter names of different width meet"""
+    n = n or rng.choice([1, 2, 2, 3])
+    L = L or rng.randint(8, 12)
+    layers = [evqe.random_valid_layer(rng, n) if rng.random() < 0.85 else {"n": n, "gates": [["I", q] for q in range(n)]} for _ in range(L)]
+    if all(evqe.layer_n_parameters(l) == 0 for l in layers[-3:]):
+        layers[-1] = {"n": n, "gates": [["R", q] for q in range(n)]}
+    values = [round(rng.uniform(0.2, 6.0), 4) + j * 1e-3 for j in range(sum(evqe.layer_n_parameters(l) for l in layers))]
+    ind = {"n": n, "layers": layers, "values": values}
+    if rng.random() < 0.7:
+        return {"kind": "append", "ind": ind, "n_layers": rng.randint(1, 4), "randomize": False, "seed": rng.randrange(2**31)}
+    return {"kind": "remove", "ind": ind, "k": rng.randint(1, min(4, L - 1))}
+
+
 TWIN_VALUES = {"-1.0/-2.0": (-1.0, -2.0), "-2.0/int -1/-1.0": (-2.0, -1, -1.0), "0.0/-0.0": (0.0, -0.0)}
 
 
@@ -279,7 +326,7 @@ def run(ctx):
     translate.check_link(ctx, "C16")
     ctx.rule = ("random valid individuals (1-6 qubits, 1-6 layers, 30% parameterless layers, a quarter from the implementation's own random_individual) x one operation: "
                 "remove_layers k in [-1, L+1]; change_parameter_values with the right count or off by 1/3; change_layer_parameter_values with layer ids in [-2L, 2L) and right/wrong counts (+ the getter); "
-                "add_random_layers with n_layers in {-1,0,1..4}, zero or random initialisation, followed by remove_layers of the same count; values include -1.0 / -2.0 (equal hash); hash-collision twins: the same operation on 2-3 individuals / value vectors identical except for -1.0 / -2.0 / int -1 or 0.0 / -0.0, consecutively in one process; distinct = distinct (individual, operation, arguments); all cases non-trivial")
+                "add_random_layers with n_layers in {-1,0,1..4}, zero or random initialisation, followed by remove_layers of the same count; deep individuals (1-3 qubits, 8-12 layers, and ~100 layers on 1 qubit, non-zero values) x zero-initialised append of 1-4 layers / removal, unitary compared before/after (depth crosses 10 and 100); values include -1.0 / -2.0 (equal hash); hash-collision twins: the same operation on 2-3 individuals / value vectors identical except for -1.0 / -2.0 / int -1 or 0.0 / -0.0, consecutively in one process; distinct = distinct (individual, operation, arguments); all cases non-trivial")
     if not rnglog.selftest():
         ctx.violation("correspondence", "rnglog-selftest", "the logging Random does not reproduce random.Random on this interpreter (vlib/rnglog.py)")
     cases = []
@@ -289,6 +336,10 @@ def run(ctx):
     cases += fixed_cases()
     for _ in range(ctx.n(1500, 12000)):
         cases.append(gen_case(ctx.rng))
+    for _ in range(ctx.n(40, 400)):
+        cases.append(gen_deep_case(ctx.rng))
+    for L in ((99, 100) if ctx.quick else (98, 99, 100, 101)):
+        cases.append(dict(gen_deep_case(ctx.rng, L=L, n=1), kind="append", n_layers=2, randomize=False, seed=L))
     for how in TWIN_VALUES:
         for _ in range(ctx.n(12, 100)):
             cases.append(gen_twins(ctx.rng, how))
